@@ -28,6 +28,8 @@ pub struct Ctx {
     pub miri: bool,
     pub verbose_on: bool,
     seen_signatures: BTreeSet<String>,
+    /// how many concrete cases may still be written into `samples`
+    pub sample_budget: u32,
     current: Arc<Mutex<&'static str>>,
 }
 
@@ -38,6 +40,7 @@ impl Ctx {
             miri,
             verbose_on,
             seen_signatures: BTreeSet::new(),
+            sample_budget: 4,
             current,
         }
     }
@@ -55,6 +58,14 @@ impl Ctx {
                 what,
                 replay,
             });
+        }
+    }
+
+    /// keep a few actual cases as evidence
+    pub fn sample(&mut self, f: impl FnOnce() -> Value) {
+        if self.sample_budget > 0 {
+            self.sample_budget -= 1;
+            self.sum.sample(f());
         }
     }
 
